@@ -16,6 +16,14 @@ def strpool(ctx):
     ctx.design("Input/StrPool.tla", "StrPool.cfg", workers=4, timeout=300, note="string_pool: InBounds, HeadRegular (page 8, allocations 1..7, <=4 pages)")
     ctx.design("Input/StrPool.tla", "StrPool_asfound.cfg", workers=2, timeout=300, expect_violation="InBounds", count=False,
                note="self-test: clear() as it was found (keeps the LAST page) must violate InBounds")
+    if not ctx.quick:
+        # unbounded in the allocation sizes and page size (2..4096): IndInv is inductive for the repaired clear()
+        A = "Input/apalache/StrPoolInd.tla"
+        ctx.apalache(A, ["--cinit=ConstInit", "--init=Init", "--inv=IndInv", "--length=0"], note="Init => IndInv")
+        ctx.apalache(A, ["--cinit=ConstInit", "--init=IndInit", "--inv=IndInv", "--length=1"], note="IndInv /\\ Next => IndInv' (pre-states: any <=5 pages of any sizes)")
+        ctx.apalache(A, ["--cinit=ConstInit", "--init=IndInit", "--inv=InBounds", "--length=1"], note="IndInv => InBounds, also after one step")
+        ctx.apalache("Input/apalache/StrPoolIndAsFound.tla", ["--cinit=ConstInit", "--init=IndInit", "--inv=IndInv", "--length=1"], expect_error=True,
+                     note="self-test: clear() as found is refuted")
     exe = ctx.harness("strpool_drv", ["input/strpool_drv.cpp"])
     t = os.path.join(ctx.work, "strpool.ndjson")
     rc, out, err = ctx.run_harness(exe, (300, 10) if ctx.quick else (3000, 40), trace=t, timeout=300)
